@@ -246,9 +246,11 @@ impl<A: LoadableAsset + SeekableAsset> TapeImpl for Tap<A> {
     }
 
     fn stop(&mut self) {
-        let state = self.state;
-        self.prev_state = state;
-        self.state = TapeState::Stop;
+        // Stopping an already stopped tape must not forget where it was stopped
+        if self.state != TapeState::Stop {
+            self.prev_state = self.state;
+            self.state = TapeState::Stop;
+        }
     }
 
     fn play(&mut self) {
@@ -270,6 +272,12 @@ impl<A: LoadableAsset + SeekableAsset> TapeImpl for Tap<A> {
         self.delay = 0;
         self.asset.seek(SeekFrom::Start(0))?;
         self.tape_ended = false;
+        // Forget the position within the previous pass: a stopped tape will start
+        // from the first block on the next `play`, running tape starts over now
+        self.prev_state = TapeState::Stop;
+        if self.state != TapeState::Stop {
+            self.state = TapeState::Play;
+        }
         Ok(())
     }
 }
